@@ -25,7 +25,7 @@ impl Check for C07 {
     fn lanes(&self, tier: Tier) -> Vec<(&'static str, usize, usize)> {
         match tier {
             Tier::Quick => vec![("lift", 1200, 400), ("tr-mixed", 500, 400), ("consts", 700, 400)],
-            Tier::Thorough => vec![("lift", 100_000, 500), ("tr-mixed", 40_000, 500), ("consts", 60_000, 500)],
+            Tier::Thorough => vec![("lift", 50_000, 500), ("tr-mixed", 20_000, 500), ("consts", 30_000, 500)],
         }
     }
     fn run_case(&self, lane: &str, src: &mut Src, rep: &mut Report) -> Result<(), Failure> {
